@@ -2,6 +2,7 @@ package props
 
 import (
 	"go/token"
+	"go/types"
 	"sort"
 	"strings"
 
@@ -76,7 +77,7 @@ func c05(c *Ctx) {
 		var nilRets []ssa.Instruction
 		for _, b := range f.Blocks {
 			for _, in := range b.Instrs {
-				if ret, ok := in.(*ssa.Return); ok && len(ret.Results) == 1 && an.IsNilConst(ret.Results[0]) {
+				if ret, ok := in.(*ssa.Return); ok && len(ret.Results) == 1 && an.IsNilConst(an.RetVal(ret, 0)) {
 					nilRets = append(nilRets, ret)
 				}
 			}
@@ -125,54 +126,7 @@ func c05(c *Ctx) {
 
 	// ---- R05.A ------------------------------------------------------------------------------------
 	c.checkEncryptPad("R05.A")
-	if f := c.fn("R05.A", load.IgePkg, "", "EncryptMessageWithTempKeys"); f != nil {
-		// pad = argument of the random-bytes call; total = 20 + len(msg) + pad
-		var pad ssa.Value
-		for _, cs := range an.Calls(f) {
-			if (strings.HasSuffix(cs.Name, ".RandomBytes") || cs.Name == "builtin:make" || strings.HasSuffix(cs.Name, "cryptoRandomBytes")) && len(cs.Common.Args) >= 1 {
-				pad = cs.Common.Args[0]
-			}
-		}
-		if pad == nil {
-			for _, b := range f.Blocks {
-				for _, in := range b.Instrs {
-					if ms, ok := in.(*ssa.MakeSlice); ok {
-						pad = ms.Len
-					}
-				}
-			}
-		}
-		if pad == nil {
-			r.Undecide("R05.A", "pad:ige.EncryptMessageWithTempKeys", c.pos(f.Pos()), "padding amount not found")
-		} else {
-			var bad []string
-			for n := int64(0); n < c.upto(64, 4096); n++ {
-				p, ok := an.EvalInt(pad, func(v ssa.Value) (int64, bool) {
-					if call, ok := v.(*ssa.Call); ok && an.CalleeName(call.Common()) == "builtin:len" {
-						a := call.Call.Args[0]
-						if a == ssa.Value(f.Params[0]) {
-							return n, true
-						}
-						if src, ok := a.(*ssa.Call); ok && (strings.Contains(an.CalleeName(src.Common()), "Sha1")) {
-							return 20, true
-						}
-					}
-					return 0, false
-				})
-				if !ok {
-					bad = []string{"expression not evaluable"}
-					break
-				}
-				if p < 0 || p > 15 || (20+n+p)%16 != 0 {
-					bad = append(bad, sprintf("len=%d→pad %d", n, p))
-				}
-			}
-			if len(bad) > 6 {
-				bad = append(bad[:6], sprintf("…(%d lengths)", len(bad)))
-			}
-			r.Check(len(bad) == 0, "R05.A", "pad:ige.EncryptMessageWithTempKeys", c.pos(pad.Pos()), "tabulated for len 0..63 (20-byte SHA-1 prefix): "+strings.Join(bad, ", "))
-		}
-	}
+	c.checkTempKeyPad("R05.A")
 
 	// ---- R05.S ------------------------------------------------------------------------------------
 	if f := c.fn("R05.S", load.IgePkg, "", "DecryptMessageWithTempKeys"); f != nil {
@@ -393,6 +347,42 @@ func (c *Ctx) checkEncryptPad(rule string) {
 func c05Buffers(c *Ctx) {
 	r := c.R
 	tr := an.NewTracer()
+	// write set of the package: no function writes through a []byte parameter, except the parameters that are
+	// outputs by contract (named out / dst: the block loops and their
+	// wrappers, xor)
+	isOut := func(g *ssa.Function, idx int) bool {
+		if load.FuncPkgPath(g) != load.IgePkg || idx >= len(g.Params) {
+			return false
+		}
+		n := g.Params[idx].Name()
+		return n == "out" || n == "dst"
+	}
+	var pkgFns []*ssa.Function
+	for f := range c.P.AllFunctions() {
+		if load.FuncPkgPath(f) == load.IgePkg && f.Synthetic == "" && len(f.Blocks) > 0 && f.Parent() == nil {
+			pkgFns = append(pkgFns, f)
+		}
+	}
+	sort.Slice(pkgFns, func(i, j int) bool { return pkgFns[i].String() < pkgFns[j].String() })
+	nparams := 0
+	for _, f := range pkgFns {
+		for k, p := range f.Params {
+			sl, ok := p.Type().Underlying().(*types.Slice)
+			if !ok || !strings.Contains(sl.Elem().String(), "byte") && sl.Elem().String() != "uint8" || isOut(f, k) {
+				continue
+			}
+			nparams++
+			ws := an.ParamWrites(f, k, isOut, 0)
+			var bad []string
+			for _, w := range ws {
+				bad = append(bad, w.What+" at "+c.pos(w.Instr.Pos()))
+			}
+			r.Check(len(bad) == 0, "R05.B", sprintf("param-untouched:%s/%s", an.ShortName(f), p.Name()), c.pos(f.Pos()), "the caller's buffer "+p.Name()+" is written: "+strings.Join(bad, "; "))
+		}
+	}
+	if nparams == 0 {
+		r.Undecide("R05.B", "param-untouched", "", "no []byte parameter found in package aes_ige")
+	}
 	for _, name := range []string{"doAES256IGEencrypt", "doAES256IGEdecrypt"} {
 		f := c.fn("R05.B", load.IgePkg, "*Cipher", name)
 		if f == nil {
@@ -480,5 +470,59 @@ func c05Buffers(c *Ctx) {
 			continue
 		}
 		r.Check(len(bad) == 0, "R05.B", "input-untouched:"+name, c.pos(f.Pos()), sprintf("%d field(s) alias the input, %d are written through: %s", len(aliased), len(written), strings.Join(bad, "; ")))
+	}
+}
+
+// checkTempKeyPad: the padding EncryptMessageWithTempKeys adds after SHA1(data)+data is 0..15 bytes and completes
+// the block, for every data length (the server tries exactly the paddings 0..15 when it looks for the hash).
+func (c *Ctx) checkTempKeyPad(rule string) {
+	r := c.R
+	if f := c.fn(rule, load.IgePkg, "", "EncryptMessageWithTempKeys"); f != nil {
+		// pad = argument of the random-bytes call; total = 20 + len(msg) + pad
+		var pad ssa.Value
+		for _, cs := range an.Calls(f) {
+			if (strings.HasSuffix(cs.Name, ".RandomBytes") || cs.Name == "builtin:make" || strings.HasSuffix(cs.Name, "cryptoRandomBytes")) && len(cs.Common.Args) >= 1 {
+				pad = cs.Common.Args[0]
+			}
+		}
+		if pad == nil {
+			for _, b := range f.Blocks {
+				for _, in := range b.Instrs {
+					if ms, ok := in.(*ssa.MakeSlice); ok {
+						pad = ms.Len
+					}
+				}
+			}
+		}
+		if pad == nil {
+			r.Undecide(rule, "pad:ige.EncryptMessageWithTempKeys", c.pos(f.Pos()), "padding amount not found")
+		} else {
+			var bad []string
+			for n := int64(0); n < c.upto(64, 4096); n++ {
+				p, ok := an.EvalInt(pad, func(v ssa.Value) (int64, bool) {
+					if call, ok := v.(*ssa.Call); ok && an.CalleeName(call.Common()) == "builtin:len" {
+						a := call.Call.Args[0]
+						if a == ssa.Value(f.Params[0]) {
+							return n, true
+						}
+						if src, ok := a.(*ssa.Call); ok && (strings.Contains(an.CalleeName(src.Common()), "Sha1")) {
+							return 20, true
+						}
+					}
+					return 0, false
+				})
+				if !ok {
+					bad = []string{"expression not evaluable"}
+					break
+				}
+				if p < 0 || p > 15 || (20+n+p)%16 != 0 {
+					bad = append(bad, sprintf("len=%d→pad %d", n, p))
+				}
+			}
+			if len(bad) > 6 {
+				bad = append(bad[:6], sprintf("…(%d lengths)", len(bad)))
+			}
+			r.Check(len(bad) == 0, rule, "pad:ige.EncryptMessageWithTempKeys", c.pos(pad.Pos()), "tabulated for len 0..63 (20-byte SHA-1 prefix): "+strings.Join(bad, ", "))
+		}
 	}
 }
